@@ -1276,11 +1276,12 @@ class Store:
         # find the process and topology updates
         for path, process in source_process_paths:
             process_path = target_path + path
-            process_updates.append((
-                process_path, process.value))
             topology_updates.append((
                 process_path, process.topology))
-            if process.value.is_step():
+            if not process.value.is_step():
+                process_updates.append((
+                    process_path, process.value))
+            else:
                 step_updates.append((
                     process_path, process.value))
                 # Note that process.flow may be None, indicating no
